@@ -233,11 +233,15 @@ func (s *Stream) Read(buffer []byte) (int, error) {
 	}
 	s.receiveBufferLock.Unlock()
 
-	// Send a window update corresponding to the amount that we read.
-	select {
-	case s.multiplexer.enqueueWindowIncrement <- windowIncrement{s.identifier, uint64(count)}:
-	case <-s.multiplexer.closed:
-		return count, ErrMultiplexerClosed
+	// Send a window update corresponding to the amount that we read. A read
+	// into a zero-length buffer consumes nothing and must not generate an
+	// update, because zero-valued window increments are a protocol violation.
+	if count > 0 {
+		select {
+		case s.multiplexer.enqueueWindowIncrement <- windowIncrement{s.identifier, uint64(count)}:
+		case <-s.multiplexer.closed:
+			return count, ErrMultiplexerClosed
+		}
 	}
 
 	// Success.
